@@ -132,12 +132,12 @@ func XMLDoc(r *rand.Rand) (doc string, toks []XTok) {
 		root := xmlName(r)
 		body := " " + root
 		if r.Intn(2) == 0 {
-			body += " PUBLIC \"-//W3C//DTD X 1.0//EN\" \"http://x/y>z\""
+			body += Pick(r, []string{" PUBLIC \"-//W3C//DTD X 1.0//EN\" \"http://x/y>z\"", " PUBLIC \"-//O'Neil//DTD r//EN\" \"x\"", " SYSTEM \"it's>here]\""})
 		}
 		if r.Intn(2) == 0 {
 			body += " ["
 			for j := r.Intn(3); j >= 0; j-- {
-				body += Pick(r, []string{"<!ENTITY a \"b>c]d\">", "<!ELEMENT x (#PCDATA)>", "<!ATTLIST x y CDATA #IMPLIED>", "\n", " ", "<!ENTITY % p \"q\">"})
+				body += Pick(r, []string{"<!ENTITY a \"b>c]d\">", "<!ELEMENT x (#PCDATA)>", "<!ATTLIST x y CDATA #IMPLIED>", "\n", " ", "<!ENTITY % p \"q\">", "<!ENTITY w \"Writer's name\">", "<!ENTITY q \"'>]'\">"})
 			}
 			body += "]"
 		}
